@@ -636,4 +636,13 @@ theorem shape_impactround : Gen.ImpactRound.untranslated = ["err != nil", "err !
 theorem shape_listenudp : Gen.ListenUDP.untranslated = ["server.tg.IsStopped()", "err != nil", "!server.tg.IsStopped()"] := by decide
 theorem shape_buildstats : Gen.BuildStats.untranslated = ["i < 2016"] := by decide
 
+
+/-- `managedGetWattTimeWeekData` (production build) is called by the rotation BEFORE it rotates and has to
+come back whatever WattTime does: one early exit for the test build, error returns, two bounded loops over
+devices and dates - no retry loop, no sleep. -/
+theorem shape_weekdata :
+    Gen.WeekData.condKinds = ["if-exit", "if"] ∧
+    Gen.WeekData.untranslated = ["err != nil", "err != nil", "i >= 4032", "err != nil", "timeslot >= gcas.equipmentReportsOffset"] := by
+  decide
+
 end Gca.Tie
